@@ -1,4 +1,7 @@
 #include "core/interpreter.h"
+#ifdef CB_VERIF
+#include "../../../common/verif_hooks.h"
+#endif
 #include "../../../common/ast.h"
 #include "../../../common/debug.h"
 #include "../../../common/debug_messages.h"
@@ -710,8 +713,24 @@ void Interpreter::process(const ASTNode *ast) {
 
         execute_statement(main_func->body.get());
         pop_scope();
+#ifdef CB_VERIF
+        if (cbv_on("CB_VERIF_STACKS")) {
+            std::fflush(stdout);
+            std::fprintf(stderr, "CBV stacks defer=%zu dtor=%zu scopes=%zu\n",
+                         defer_stacks_.size(), destructor_stacks_.size(),
+                         scope_stack.size());
+        }
+#endif
     } catch (const ReturnException &e) {
         pop_scope(); // return時もスコープをクリーンアップ
+#ifdef CB_VERIF
+        if (cbv_on("CB_VERIF_STACKS")) {
+            std::fflush(stdout);
+            std::fprintf(stderr, "CBV stacks defer=%zu dtor=%zu scopes=%zu\n",
+                         defer_stacks_.size(), destructor_stacks_.size(),
+                         scope_stack.size());
+        }
+#endif
         debug_msg(DebugMsgId::MAIN_FUNC_EXIT, e.value);
     }
 }
